@@ -245,6 +245,58 @@ func runSequence(steps []Step) (sig, msg string, stats map[string]int) {
 			maxRev = mv.Rev
 			lastWrite[key] = time.Now()
 			stats["delete"]++
+		case "deleteraced":
+			// Delete while another client (a second adapter handle on the same connection) is refreshing the key
+			// as fast as it can, each refresh against the revision of its previous one: Delete is unconditional, so
+			// it succeeds whatever lands in between; every refresh that succeeded came before it, the first one
+			// after it is refused (the delete marker has a revision of its own) and ends the chain.
+			cur := model.Live(key)
+			if cur == nil {
+				stats["deleteraced-skipped-not-live"]++
+				break
+			}
+			kv2, err2 := leader.VerifNewNATSKeyValue(conn, bucket)
+			if err2 != nil {
+				return fail(i, "C14 second-handle-failed", err2.Error())
+			}
+			okUpdates := make(chan int, 1)
+			started := make(chan struct{})
+			go func() {
+				rev, n := cur.Rev, 0
+				close(started)
+				for j := 0; j < 200; j++ {
+					r, e := kv2.Update(key, []byte("raced"), rev)
+					if e != nil {
+						break
+					}
+					rev, n = r, n+1
+				}
+				okUpdates <- n
+			}()
+			<-started
+			time.Sleep(time.Duration(st.W) * 300 * time.Microsecond)
+			err := kv.Delete(key)
+			n := <-okUpdates
+			for j := 0; j < n; j++ {
+				c := model.Live(key)
+				if c == nil {
+					return fail(i, "C14 harness-model-out-of-step", "model lost the key during the raced refreshes")
+				}
+				model.Update(key, []byte("raced"), c.Rev, "t2")
+			}
+			mv := model.Delete(key, "t")
+			if err != nil {
+				return fail(i, "C14 delete-failed", fmt.Sprintf("Delete of a live key failed while another client was refreshing it (%d refreshes landed): %v", n, err))
+			}
+			maxRev = mv.Rev
+			lastWrite[key] = time.Now()
+			stats["delete-raced"]++
+			if n > 0 {
+				stats["delete-raced-with-refreshes-landed"]++
+			}
+			if e, gerr := kv.Get(key); gerr == nil && e != nil {
+				return fail(i, "C14 get-outcome-differs", fmt.Sprintf("key live (rev %d) after a Delete that returned nil", e.Revision()))
+			}
 		case "deleterev":
 			// the revision-checked delete a graceful shutdown uses (leader.RevisionDeleter)
 			var rev uint64
@@ -445,7 +497,7 @@ func genSteps() *rapid.Generator[[]Step] {
 		}
 		for i := 0; i < n; i++ {
 			st := Step{Key: rapid.SampledFrom([]int{0, 0, 0, 0, 1, 2}).Draw(t, "key"), W: rapid.IntRange(0, 3).Draw(t, "w")}
-			op := rapid.SampledFrom([]string{"create", "create", "update", "update", "update", "get", "get", "delete", "deleterev", "sleepexpire", "watch", "recv", "recv", "recv", "stopwatch", "updatescalls"}).Draw(t, "op")
+			op := rapid.SampledFrom([]string{"create", "create", "update", "update", "update", "get", "get", "delete", "deleterev", "deleteraced", "sleepexpire", "watch", "recv", "recv", "recv", "stopwatch", "updatescalls"}).Draw(t, "op")
 			if op == "sleepexpire" {
 				if sleeps >= 3 {
 					op = "get"
